@@ -47,12 +47,13 @@ MODEL_SCOPE = ("modelled by hand and tied by the lex lane (not verified against 
 
 prop(
     "C01",
-    ["LolHtml.Thm.C01", "LolHtml.Thm.C01_Total"],
+    ["LolHtml.Thm.C01", "LolHtml.Thm.C01_Total", "LolHtml.Thm.C01_Total_Lexer", "LolHtml.Thm.C01_Final", "LolHtml.Thm.Full"],
     [{"lane": "lex", "n_quick": 4000, "n_thorough": 200000},
+     {"lane": "full", "n_quick": 2000, "n_thorough": 40000},
      {"lane": "pass", "n_quick": 3000, "n_thorough": 60000, "impl_only": True}],
     LEX_RULE + "; lane pass (implementation only): public HtmlRewriter in all 36 ASCII-compatible encodings, documents whose text the encoding round-trips, cuts anywhere incl. inside multi-byte characters, 6 observer handler sets",
     ["observing controller = tokens serialise to their raw bytes (the property's own round-trip exception for captured text), emission never disabled, nothing appended at document end",
-     "C01_passthrough is conditional on all calls succeeding; C01_passthrough_total removes that for controllers that never fail and never request aux info (non-strict mode, bytes written <= memory limit), with ONE remaining run hypothesis: no call panics at the RequestLexeme callback assertion (scanner/lexer agreement, C06_relex_same_tag locally; global threading open, see C15)",
+     "C01_passthrough is conditional on all calls succeeding; C01_passthrough_total removes that for controllers that never fail and never request aux info (non-strict mode, bytes written <= memory limit), with one run hypothesis (no call panics at a U2 site); C01_passthrough_final discharges it with C15_no_panic_full's agreement theorem (decidable table side-condition RelexSide, true of the regenerated table), and C01_passthrough_total_lexer needs no table hypothesis for controllers that stay in lexer mode; C01_real instantiates the theorem at the full controller model (selector VM + handler dispatcher + edit model) with non-mutating scripts",
      MODEL_SCOPE],
     level_text=("Lean 4 theorem C01_passthrough: for EVERY tokenizer table, tag configuration, settings, observing controller "
                 "(arbitrary capture-flag decision at every tag, i.e. arbitrary scanner/lexer switching), byte string and split into "
@@ -61,7 +62,8 @@ prop(
                 "(Lemmas/Preserve) and a dispatcher tiling invariant (Lemmas/Tiling). C01_passthrough_total: for every table passing the "
                 "kernel-checked C15 side-conditions, a never-failing observing controller, non-strict mode and input within the "
                 "memory limit, EVERY write and the end return ok and the sink bytes equal the input (error provenance: parse can "
-                "only fail by a panic at a U2 site). The model is tied to the code by the lex "
+                "only fail by a panic at a U2 site), and C01_passthrough_final removes that last run hypothesis (U2 sites unreachable "
+                "by C15_agreement): no hypothesis about the run is left. The model is tied to the code by the lex "
                 "correspondence lane (model vs real TransformStream on generated cases) and the direct oracle sink == input."),
     level_note=("Trusted: Lean kernel (axioms propext, Quot.sound only), the hand-written model of the dispatcher/parser glue "
                 "(checked by the lex lane, not proved equal to the Rust), the DSL/tag translators. Not covered: decode/encode "
@@ -111,9 +113,10 @@ prop(
 
 prop(
     "C04",
-    ["LolHtml.Thm.C04_VM", "LolHtml.Thm.C04_Pure"],
+    ["LolHtml.Thm.C04_VM", "LolHtml.Thm.C04_Pure", "LolHtml.Thm.Full"],
     [{"lane": "sel", "n_quick": 1500, "n_thorough": 20000},
-     {"lane": "selpure", "n_quick": 2000, "n_thorough": 40000}],
+     {"lane": "selpure", "n_quick": 2000, "n_thorough": 40000},
+     {"lane": "full", "n_quick": 2000, "n_thorough": 40000}],
     "lane sel: selector sets printed from the model's AST grammar (type, *, #id, .class, six attribute operators with i/s, :nth-*, :not() with simple/compound/list/nested arguments, child and descendant combinators, lists) x tag-event scripts (mis-nested, stray end tags, voids, case variants, duplicate attributes, foreign self-closing, ESI) x cuts: model VM vs real HtmlRewriter hits, Spec.Css vs an independent Rust reference matcher, Lean printer vs the text fed to the real parser, predicted vs actual Ast dump; lane selpure: nth triples incl. extreme offsets, attribute operators x case flags x namespaces x empty operands, id/class/exists",
     ["CSS text parsing (crates selectors/cssparser) is not modelled: the model starts from the component list; the lane compares the printed text and the Ast dump",
      "the :not() restriction of C04_vm_refines_css (arguments are single simple selectors or lists of them) is finding F3, proved necessary by C04_vm_refines_css_statement_false",
@@ -133,8 +136,9 @@ prop(
 
 prop(
     "C05",
-    ["LolHtml.Thm.C05_Scope"],
-    [{"lane": "scope", "n_quick": 2000, "n_thorough": 10000}],
+    ["LolHtml.Thm.C05_Scope", "LolHtml.Thm.Full"],
+    [{"lane": "scope", "n_quick": 2000, "n_thorough": 10000},
+     {"lane": "full", "n_quick": 2000, "n_thorough": 40000}],
     "lane scope: tag-event scripts (unclosed, mis-nested, void, foreign self-closing, removed content) x handler registrations (element/text/comments/end-tag/document) x cuts, real HtmlRewriter with logging handlers vs the model",
     ["the matcher is an arbitrary function from start tags to sets of registered match ids (WfEvents); that the VM returns only registered ids is C04's",
      "handler/memory errors, ESI tags, meta-charset handler id shift are not modelled", PKG_SCOPE],
@@ -212,11 +216,12 @@ prop(
 
 prop(
     "C11",
-    ["LolHtml.Thm.C11", "LolHtml.Thm.C11_General"],
+    ["LolHtml.Thm.C11", "LolHtml.Thm.C11_General", "LolHtml.Thm.C11_General_End", "LolHtml.Thm.Full"],
     [{"lane": "fault", "n_quick": 4000, "n_thorough": 100000},
+     {"lane": "full", "n_quick": 2000, "n_thorough": 40000},
      {"lane": "proto", "n_quick": 5000, "n_thorough": 100000, "impl_only": True}],
     LEX_RULE + "; lane fault = lane lex plus a handler failure injected at token index 1..8, graceful flags, memory limit and preallocation sweeps (model vs real TransformStream); lane proto (implementation only): public HtmlRewriter in all 36 encodings with end / bail-out content, token mutations with empty strings, a failure injected at handler invocation index 1..11 or by memory limit, graceful flags on/off, preallocation sizes, cuts anywhere: byte preservation and bail-out handler count",
-    ["the exact sink CONTENT (written.take j ++ handler output ++ written.drop j) is proved for observing controllers (handlers that inspect and may FAIL at any invocation but do not mutate); for arbitrary controllers (rewriting, removing, failing) C11_bailout_general proves the shape: log at failure ++ bail-out handler output ++ the unemitted rest of the input from remaining_content_start, unmodified; the end() variant of the general theorem is not stated",
+    ["the exact sink CONTENT (written.take j ++ handler output ++ written.drop j) is proved for observing controllers (handlers that inspect and may FAIL at any invocation but do not mutate); for arbitrary controllers (rewriting, removing, failing) C11_bailout_general proves the shape: log at failure ++ bail-out handler output ++ the unemitted rest of the input from remaining_content_start, unmodified; the end() variant is C11_bailout_general_end (an end-handler failure is not guarded by should_bail_out_for: no bail-out handler runs, as coded)",
      "an end-handler failure happens after every received byte was emitted; the bail-out handlers are not run then (as coded and as the repository's own test expects)",
      MODEL_SCOPE],
     level_text=("Lean 4 theorem C11_bailout_write: for every table, flag schedule, chunking, memory limit and preallocation, "
@@ -236,8 +241,9 @@ prop(
 
 prop(
     "C12",
-    ["LolHtml.Thm.C12", "LolHtml.Thm.C12_Prefix"],
+    ["LolHtml.Thm.C12", "LolHtml.Thm.C12_Prefix", "LolHtml.Thm.Full"],
     [{"lane": "fault", "n_quick": 4000, "n_thorough": 100000},
+     {"lane": "full", "n_quick": 2000, "n_thorough": 40000},
      {"lane": "proto", "n_quick": 5000, "n_thorough": 100000, "impl_only": True}],
     LEX_RULE + "; lane fault = lane lex plus injected failures and memory limits; lane proto (implementation only): as for C11, checking the sink-call log against the protocol automaton (encoding first, zero-length chunk exactly once and last on success, never on failure, use after error panics silently)",
     ["content written by end / bail-out handlers goes through the text encoder and is never an empty slice (CleanEnds; the encoder fact is C13_encoder)",
@@ -294,8 +300,9 @@ prop(
 
 prop(
     "C07",
-    ["LolHtml.Thm.C07_Edit"],
-    [{"lane": "edit", "n_quick": 2500, "n_thorough": 30000}],
+    ["LolHtml.Thm.C07_Edit", "LolHtml.Thm.Full"],
+    [{"lane": "edit", "n_quick": 2500, "n_thorough": 30000},
+     {"lane": "full", "n_quick": 2000, "n_thorough": 40000}],
     "lane edit: documents built from a token-level grammar (well-formed tags with attributes, end tags, comments, text, doctype; nested / unclosed / stray / void / foreign self-closing elements) x cut positions x handler scripts (selector restricted to type selectors and *, all Element / start_tag / end_tag / comment / text / doctype / document-end operations with arbitrary strings, both content types, streaming handlers, several handlers per token, on_end_tag): real HtmlRewriter output vs model, documented output (Spec.EditDoc) vs an independent Rust reference editor",
     ["the token stream is an input of the model (the parser is C01/C02/C16's subject); selectors beyond type selectors and * are C04's",
      "the whole-document theorem is for CLEAN runs: no element with visible end-region edits is closed implicitly or left open at end of input (outside: known findings F24, F25, refuted by proved counter-examples)",
@@ -317,13 +324,16 @@ prop(
 
 prop(
     "C15",
-    ["LolHtml.Thm.C15_Core", "LolHtml.Thm.C15_Full"],
+    ["LolHtml.Thm.C15_Core", "LolHtml.Thm.C15_Full", "LolHtml.Thm.C15_Linear", "LolHtml.Thm.Full"],
     [{"lane": "lex", "n_quick": 4000, "n_thorough": 200000},
      {"lane": "fault", "n_quick": 3000, "n_thorough": 60000},
+     {"lane": "full", "n_quick": 2000, "n_thorough": 40000},
      {"lane": "patho", "n_quick": 200, "n_thorough": 400, "impl_only": True}],
     LEX_RULE + "; every lane of the harness runs in a build with overflow checks and debug assertions, each case under catch_unwind (a panic is an observation `PANIC …`, compared with the model which makes every panic site explicit); lane patho (implementation only): pathological shapes (deep nesting, one giant tag name / attribute list / attribute value / comment / doctype, '<' and '</' runs, foreign content, script escapes, select, CDATA, random markup bytes, hundreds of selectors, random selector strings) at sizes up to 4*10^6 bytes, in one write and in 4 KiB writes, with a deterministic work oracle (bytes handed to Parser::parse, counted by a hook, <= 2*len + 4 KiB) and a hard CPU bound",
     ["covers the parser / dispatcher / transform-stream core; panics in selectors/cssparser/encoding_rs/std and in the packages' own scopes (selector VM: C04_vm_never_panics; handlers: C05_no_panic; memory: C10_error_not_panic; nth: C04_nth_total) are those packages' theorems",
-     "two panic sites remain open (U2): 'Tag should be a start tag at this point' (pending aux-info request answered by an end tag) and the RequestLexeme callback assertion. Both are proved unreachable LOCALLY (C15_start_tag_site_local, C15_callback_site_local: given that the re-lexed tag is the hinted one, which is C06_relex_same_tag) and C15_no_panic_full_of_agreement reduces the full statement to that agreement; the global threading of the agreement through parseLoop / Stream.write is not proved (C15_no_panic_full_statement stays a statement)",
+     "the two former open sites (U2: 'Tag should be a start tag at this point', RequestLexeme callback assertion) are closed by C15_no_panic_full at the cost of one more decidable table side-condition RelexSide (HeadOk, RelexOk, TextTypeOk, PhaseOk: the token-kind agreement between scanner and re-lexing lexer is a property of the table), decided on the regenerated table on every run",
+     "CtlClean quantifies over all controller states; the real controller model (Model/Full) satisfies it only on states reachable in runs (Full_not_ctlClean: the aux-info continuation without a pending request is rewrite_controller.rs's 'vm req without vm' branch) — the Full-model panic sites are covered by Full_descs_in_sync / Full_vec_loops_never_fail / Full_handleEnd_clean, the combined statement Full_no_panic_statement is not proved",
+     "work bound: C15_linear_parse (one parse call makes <= 32(|slice|+1) state invocations) and C15_work_linear_when_drained (total work linear when each write leaves <= K retained bytes); without draining the bytes handed to the parser grow quadratically: C15_work_quadratic_witness = known finding F29",
      "known finding F29: a token spanning many writes is re-lexed from its start on every write (quadratic work), found by lane patho",
      "the controller itself never returns a panic/internal-class error (CtlClean)", MODEL_SCOPE],
     level_text=("Lean 4 theorem C15_no_panic: for every tokenizer table satisfying decidable side-conditions (targets exist, "
@@ -334,7 +344,12 @@ prop(
                 "use-after-error panic); 21 explicit panic / internal sites are unreachable (cursor underflows, raw and flush "
                 "ranges, every Bytes::slice site, unknown state, non-exhaustive match, Arena::shift, leave_ns, 'tag should "
                 "exist' assertions), both fuel budgets are never exhausted (C15_fuel) and one parsing-loop run makes at most "
-                "8(n+1) state invocations (C15_linear_run). PARTIAL: two sites open, whole-parse linear bound stated only."),
+                "8(n+1) state invocations (C15_linear_run). C15_no_panic_full: with the additional side-condition RelexSide NO call "
+                "returns a panic- or internal-class error (all 23 sites). C15_linear_parse: one Parser.parse call, all directive "
+                "switches included, makes at most 32(|slice|+1) state-function invocations for every table with WfLinear "
+                "(C15_linear_statement for bare WfTable is refuted by a 9-state counter-table); total work is linear when writes "
+                "drain (C15_work_linear_when_drained) and provably quadratic in bytes handed to the parser otherwise "
+                "(C15_work_quadratic_witness, F29)."),
     level_note="Trusted: Lean kernel; DSL translator; the core model (lanes lex / fault, debug build).",
     technique="Lean 4 proof (register invariants through the DSL interpreter; static analyses of the table as kernel-checked side-conditions) + correspondence lanes in a debug build",
     design_ref="DESIGN.md section 4 C15",
@@ -342,10 +357,10 @@ prop(
 
 prop(
     "C09",
-    ["LolHtml.Thm.C09_Bound"],
+    ["LolHtml.Thm.C09_Bound", "LolHtml.Thm.C02_Chunk", "LolHtml.Thm.C02_Final"],
     [{"lane": "lex", "n_quick": 4000, "n_thorough": 200000}],
     LEX_RULE + "; oracles: emitted count after each write vs a fresh rewriter given the prefix in one write; with no handlers the held bytes must be '<' ['/'] name-prefix or <= 8 look-ahead bytes, and nothing when a full lexer holds nothing",
-    ["schedule independence (bytes out after write k is a function of the bytes written) is checked by the oracle only until package chunk (C02) lands",
+    ["schedule independence is C09_schedule_independent (in Thm/C02_Chunk): after any successful writes the sink holds exactly the bytes a fresh rewriter emits for the concatenation in one write — for the controller class TextBlind and Clean runs, see C02",
      "the scanner bound is for runs that stay in scanner mode (no handlers, HTML namespace or no RequestLexeme tag); foreign-content tags that need attributes are buffered whole (known finding F10, reproduced on the model as C09_F10_witness)",
      MODEL_SCOPE],
     level_text=("Lean 4 theorems: for any table satisfying the decidable side-condition UnmarkOnLeave (every arm leaving the "
@@ -354,7 +369,9 @@ prop(
                 "(finding F4) — a scanner run that ends a write holds back w ++ v with w empty or '<', '</', '<'['/'] + partial "
                 "tag name and v empty or a proper prefix (<= 6 bytes) of a look-ahead literal (C09_scanner_bound); nothing is "
                 "held when the state is a rest state (C09_rest_states); in lexer mode the held bytes are exactly the single "
-                "unfinished lexeme (C09_lexer_bound)."),
+                "unfinished lexeme (C09_lexer_bound); the bytes out after the k-th write are a function of the bytes written so "
+                "far, not of how they were split (C09_schedule_independent; C09_schedule_independent_final needs only that the "
+                "single write does not hit the memory limit)."),
     level_note="Trusted: Lean kernel; DSL translator; the core model (lane lex).",
     technique="Lean 4 proof (scanner invariant over a decidable tag-head state set + kernel-checked table side-condition) + correspondence lane + latency oracles",
     design_ref="DESIGN.md section 4 C09",
@@ -362,10 +379,11 @@ prop(
 
 prop(
     "C06",
-    ["LolHtml.Thm.C06_Scan", "LolHtml.Thm.C06_Relex"],
-    [{"lane": "lex", "n_quick": 4000, "n_thorough": 200000}],
+    ["LolHtml.Thm.C06_Scan", "LolHtml.Thm.C06_Relex", "LolHtml.Thm.C06_Indep", "LolHtml.Thm.Full"],
+    [{"lane": "lex", "n_quick": 4000, "n_thorough": 200000},
+     {"lane": "full", "n_quick": 2000, "n_thorough": 40000}],
     LEX_RULE + "; oracle: every schedule S is also run as S u O for four observer sets O (TEXT, COMMENTS, DOCTYPES, every tag) and the events H would receive, the result and the sink bytes must be identical",
-    ["the top-level independence statement (dispatcher-level induction over mode switches, got_flags_from_hint bookkeeping) is stated (C06_independence_statement) but not proved; the oracle covers it. Its key step IS proved: the lexer loaded from the scanner's bookmark re-lexes the hinted tag (C06_relex_same_tag)",
+    ["independence is proved for the lexer half (C06_independence_partial): for H whose flag sets always contain text, comments or doctypes (StickyCtl: H never drops to the tag scanner) and any observer set O, both modes, every chunking: same call results and same final state of H (H arbitrary, so its events), and same sink bytes for observer-only H (C06_independence_observing); with Model/Full, any two non-mutating configurations give the same output on successful runs (C06_real_output). The scanner<->lexer half (H's flags become empty) has the step simulation, boundary agreement and C06_relex_same_tag, but the dispatcher-level induction over hand-overs is not done: C06_independence_statement stays a statement + oracle there",
      "known finding F27: strict-mode ParsingAmbiguity on an unterminated tag at end of input depends on the handler set",
      MODEL_SCOPE],
     level_text=("Lean 4 theorems over the two action sets running the same table: one state-function step from related "
@@ -378,7 +396,10 @@ prop(
                 "finish_tag_name on a token with the same kind, name hash and name range (C06_relex_same_tag), nothing between "
                 "finish_tag_name and emit_tag touches kind/hash/name/feedback (C06_relex_intag) and emit_tag hands that token "
                 "to handle_tag (C06_relex_emit). Side-conditions PhaseOk, TextTypeOk (what F1 violated: C06_textTypeOk_rejects_F1) "
-                "and RelexOk on the generated table by decide +kernel. PARTIAL: C06_independence is a statement + oracle."),
+                "and RelexOk on the generated table by decide +kernel. C06_independence_partial(+_no_panic, _gen): for every controller "
+                "H that stays in lexer mode and every observer set O, H and H u O return the same call results under every "
+                "chunking in both modes and H ends in the same state. PARTIAL: the scanner-mode half of independence is a "
+                "statement + oracle."),
     level_note="Trusted: Lean kernel; DSL translator; the core model (lane lex).",
     technique="Lean 4 proof (simulation relation between the two machines, preserved by every table arm) + correspondence lane + H vs H u O oracle",
     design_ref="DESIGN.md section 4 C06",
@@ -389,7 +410,8 @@ prop(
     "C16",
     ["LolHtml.Thm.C16_Attrs"],
     [{"lane": "attrs", "n_quick": 3000, "n_thorough": 32000},
-     {"lane": "edit", "n_quick": 1500, "n_thorough": 15000}],
+     {"lane": "edit", "n_quick": 1500, "n_thorough": 15000},
+     {"lane": "full", "n_quick": 2000, "n_thorough": 40000}],
     "lane edit (secondary: reads after edits surface in the serialised output); lane attrs: one start tag (all attribute syntaxes, odd characters, '/' placements, upper case, non-ASCII bytes, html/svg/math context, cut anywhere) through the real HtmlRewriter (element handler: tag_name, attributes(), get/has_attribute, is_self_closing, can_have_content, namespace_uri, locations; then, in about 45 % of the cases, an edit script set_attribute / remove_attribute / set_tag_name — attribute-less tags, duplicates, case variants, set-then-remove, remove-then-set, rejected names — after which tag_name, attributes() and the queries are read again) vs model + Spec.Attrs; oracle: independent WHATWG attribute parser cross-checked with html5ever, and an independent list algebra for the reads after edits (tag edit-read)",
     ["the byte-level API model presumes the read accessors decode bijectively (windows-1252 in the lane); BOM-prefixed names/values are a finding (no edit scripts on such tags)",
      "serialisation of an edited tag is C07's (package edit), not read back here"],
@@ -417,22 +439,28 @@ prop(
 
 prop(
     "C02",
-    ["LolHtml.Thm.C02_Chunk"],
+    ["LolHtml.Thm.C02_Chunk", "LolHtml.Thm.C02_Final"],
     [{"lane": "lex", "n_quick": 4000, "n_thorough": 200000},
      {"lane": "pass", "n_quick": 2000, "n_thorough": 40000, "impl_only": True}],
     LEX_RULE + "; oracle: every chunked run is compared with the single-write run (result, canonical event log with absolute ranges, output); lane pass: text nodes seen by a text handler under every encoding must not depend on the chunking",
-    ["the top-level statements (C02_chunk_invariance_statement, C09_schedule_independent_statement) are stated and kernel-checked on concrete documents under several chunkings, but the assembly from the step lemma (parsing loop for one cut, directive switches, dispatcher instance, induction over chunk lists) is still in progress: this claim is PARTIAL",
-     "panic-class, memory and out-of-fuel results are excluded on both runs (C15 shows they cannot occur)",
-     "controllers must not fail on, or branch on, text fragments (inherent in the streaming API)", MODEL_SCOPE],
+    ["whole-run invariance (C02_chunk_invariance, C02_chunk_vs_single) is proved for the controller class TextBlind: an equivalence E on controller states respected by all operations, tokens observed in absolute form, text chunks never fail / never switch encoding / serialise to themselves / are splittable up to E (text-ignoring controllers, constant-flag observers, a byte counter that does observe text, and the lane's scripted controller with failAt = 0 are instances), and shouldEmit always true: controllers that REMOVE content are not covered (in the model a generic controller could flip emission at a tag with no captured token, which is chunk-dependent; the real HtmlRewriteController requests removal from a token handler only)",
+     "the two chunked runs and the single-write run must be Clean: no panic-class result (C15_no_panic_full shows they cannot occur) and no memory-limit error (the limit is chunk-dependent by nature); chunk lists non-empty",
+     "handler-visible TEXT under non-UTF-8 encodings (decoder state across writes) is covered by lanes pass / enc and C13's decoder theorems, not by this theorem", MODEL_SCOPE],
     level_text=("Lean 4 theorems for any table satisfying the decidable side-condition WfChunk (a forward dataflow analysis of "
                 "which position registers are live, checked as a post-fixpoint by decide +kernel on the generated table; it "
                 "encodes the discipline finding F7 violated), both machines and any sink: every action of both action sets "
                 "preserves the relation 'split run on a slice vs whole run on the document' with absolute ranges equal "
                 "(C02_action_partial), action lists / conditions / transitions (C02_body_partial), look-ahead sequences and "
                 "memchr scans give the same verdict unless the slice ends first (C02_lookahead_horizon, C02_memchr_horizon), "
-                "breaks re-base correctly (C02_break_*), and ONE STATE-FUNCTION INVOCATION is lock-step or, only if the slice "
-                "ends first, a break of the split run alone (C02_step). PARTIAL: whole-run invariance is a statement + oracle."),
+                "breaks re-base correctly (C02_break_*), ONE STATE-FUNCTION INVOCATION is lock-step or, only if the slice "
+                "ends first, a break of the split run alone (C02_step); one cut: parse a vs the parse of pre++a++post reaches a "
+                "machine related to the resumed parser in frame delta+c (C02_resumption); the dispatcher is an instance for the "
+                "controller class TextBlind (C02_dispatcher); ANY non-empty chunking vs ONE write gives the same outcome and, on "
+                "success, the same sink bytes and E-related controller states (C02_chunk_vs_single); two chunkings with equal "
+                "concatenation give the same outcome and sink bytes (C02_chunk_invariance); on the lane world also the same "
+                "event log (C02_chunk_invariance_lex); C02_chunk_invariance_final replaces the Clean hypotheses by 'no call "
+                "hits the memory limit' using C15_no_panic_full."),
     level_note="Trusted: Lean kernel; DSL translator; the core model (lane lex).",
-    technique="Lean 4 proof (simulation between a run on a slice and a run on the whole document, step level) + correspondence lane + chunked-vs-single oracle",
+    technique="Lean 4 proof (simulation between a run on a slice and a run on the whole document: step, one cut, dispatcher instance, induction over chunk lists) + correspondence lane + chunked-vs-single oracle",
     design_ref="DESIGN.md section 4 C02",
 )
